@@ -123,3 +123,7 @@ Definition cnt (st : strategy) (pr : params) (ps : list prov) (inb : N -> bool) 
                                       | Some v => (v_id v =? id) && inb (pv_time p0)
                                       | None => false
                                       end) ps)).
+
+(* the threshold a majority strategy applies *)
+Definition maj_thr (st : strategy) (pr : params) : Z :=
+  match template_of st with TMajAtt => Z.of_N (p_threshold pr) | _ => 0%Z end.
